@@ -1,1 +1,16 @@
 import BddVerif.Props.C11
+#print axioms B.Props.C11.none_on_false
+#print axioms B.Props.C11.witness_sat
+#print axioms B.Props.C11.first_valuation_least
+#print axioms B.Props.C11.last_valuation_greatest
+#print axioms B.Props.C11.first_clause_path
+#print axioms B.Props.C11.last_clause_path
+#print axioms B.Props.C11.most_positive_spec
+#print axioms B.Props.C11.most_negative_spec
+#print axioms B.Props.C11.most_fixed_spec
+#print axioms B.Props.C11.most_free_spec
+#print axioms B.Props.C11.random_valuation_sat
+#print axioms B.Props.C11.random_clause_path
+#print axioms B.Props.C11.necessary_clause_sound
+#print axioms B.Props.C11.is_clause_spec
+#print axioms B.Props.C11.is_valuation_spec
